@@ -12,7 +12,8 @@ Local Open Scope R_scope.
 Definition sq_dist (x a : s2_Point) : PrimFloat.float :=
   r3_Vector_Norm2 (r3_Vector_Sub (s2_Point_Vector x) (s2_Point_Vector a)).
 (** min(xa2, xb2): the value of the endpoint branch *)
-Definition endDist (x a b : s2_Point) : PrimFloat.float := go_fmin (sq_dist x a) (sq_dist x b).
+Definition endDist (x a b : s2_Point) : PrimFloat.float :=
+  s1_ChordAngleFromSquaredLength (go_fmin (sq_dist x a) (sq_dist x b)).
 
 Definition planar_maxError (x a b : s2_Point) : PrimFloat.float :=
   PrimFloat.add (PrimFloat.mul (0x1.3p-50)%float
@@ -86,6 +87,24 @@ Lemma endpoint_branch_exact x a b m :
 Proof.
   intros H. rewrite always_value. rewrite always_interior in H. unfold dist2.
   destruct (interior_taken x a b); [discriminate | reflexivity].
+Qed.
+
+(** the endpoint branch never returns more than StraightChordAngle = 4 (the clamp of
+    ChordAngleFromSquaredLength): |x-a|^2 of unit-length floats can round to 4.000000000000002 *)
+Lemma rank_four : rank 4%float = 4.
+Proof.
+  unfold rank, rankB. destruct (Prim2B 4%float) as [s|s| |s m e He] eqn:E;
+  apply (f_equal (@B2SF _ _)) in E; rewrite B2SF_Prim2B in E; vm_compute in E; try discriminate.
+  inversion E; subst. unfold B2R, F2R, Defs.F2R. simpl. lra.
+Qed.
+
+Lemma endDist_le_four x a b : nonnan (endDist x a b) -> rank (endDist x a b) <= 4.
+Proof.
+  unfold endDist, s1_ChordAngleFromSquaredLength.
+  set (v := go_fmin (sq_dist x a) (sq_dist x b)).
+  destruct (PrimFloat.ltb 4%float v) eqn:E; intros Hn.
+  - rewrite rank_four. lra.
+  - apply ltb_false_iff in E; auto; [|reflexivity]. rewrite rank_four in E. exact E.
 Qed.
 
 (** ** threshold forms *)
